@@ -42,7 +42,10 @@ TYPES = {
     "U": {"kind": "UNION", "possible": ["A", "B"], "fields": {}},
 }
 TYPES["Mutation"] = {"kind": "OBJECT", "possible": [], "fields": dict(TYPES["Query"]["fields"])}
+TYPES["Subscription"] = {"kind": "OBJECT", "possible": [], "fields": {
+    "ev": fld(N("A")), "evn": fld(NN(N("A"))), "num": fld(N("Int"), [("x", N("Int"), 2)]), "li": fld(L(NN(N("Int")))), "iface": fld(N("I"))}}
 ABS = {"query": "Query", "types": TYPES}
+ABS_SUBSCRIPTION = {"query": "Subscription", "types": TYPES}
 ABS_MUTATION = {"query": "Mutation", "types": TYPES}
 
 
@@ -270,6 +273,30 @@ def gen_case(seed, depth=3, op="query"):
 
 # ---------------------------------------------------------------------------------------------
 # rendering
+
+def gen_subscription_case(seed, depth=2):
+    """A subscription operation (exactly one root field) and a sequence of source events."""
+    rnd = random.Random(seed)
+    g = DocGen(rnd)
+    f = rnd.choice(list(TYPES["Subscription"]["fields"]))
+    fd = TYPES["Subscription"]["fields"][f]
+    tn = named_of(fd["type"])
+    leaf = TYPES[tn]["kind"] == "SCALAR"
+    root_field = {"k": "F", "alias": rnd.choice(["", "sub"]), "name": f, "args": g.args(fd), "dirs": [],
+                  "sel": [] if leaf else g.sel(tn, depth)}
+    vardefs = [{"name": n, "type": t, "hasDefault": dflt is not None, "default": ival(dflt)} for n, t, dflt in VARDEFS if n in g.used_vars]
+    variables = {}
+    for vd in vardefs:
+        isbool = named_of(vd["type"]) == "Boolean"
+        if vd["hasDefault"] and rnd.random() < 0.4:
+            continue
+        if vd["type"][0] != "NN" and rnd.random() < 0.2:
+            continue
+        variables[vd["name"]] = {"t": "b", "v": rnd.random() < 0.5} if isbool else {"t": "i", "v": rnd.randint(0, 9)}
+    events = [gen_obj(rnd, "Subscription", depth) for _ in range(rnd.choice([0, 1, 2, 3, 4]))]
+    return {"schema": ABS_SUBSCRIPTION, "doc": {"sel": [root_field], "frags": g.frags or {"_": {"on": "Query", "sel": []}}, "vardefs": vardefs},
+            "vars": variables or {"_": {"t": "null"}}, "events": events}
+
 
 def render_sel(sels):
     out = []
